@@ -75,6 +75,12 @@ def cases(tier, seed, ctx=None):
             yield ("copier", [c, 1, 3, 0, -1, NOFAIL, base, [14, 4]], "seq-complete")
             # data arriving before the first turn, and finish with unread data
             yield ("copier", [c, 1, 3, 0, -1, NOFAIL, [START] + [FEED(p) for p in parts] + [FINISH, TURN], [14, 4]], "seq-early")
+            # pieces already buffered in the source before start(), the rest (and the end) before the copier's first turn
+            for j in range(1, len(parts) + 1):
+                ops = [FEED(p) for p in parts[:j]] + [START] + [FEED(p) for p in parts[j:]] + [FINISH, TURN]
+                yield ("copier", [c, 1, 3, 0, -1, NOFAIL, ops, [14, 4]], "seq-buffered-before-start")
+                ops = [FEED(p) for p in parts[:j]] + [START, TURN] + [x for p in parts[j:] for x in (FEED(p), TURN)] + [FINISH, TURN]
+                yield ("copier", [c, 1, 3, 0, -1, NOFAIL, ops, [14, 4]], "seq-buffered-before-start")
             for k in range(1, len(base)):
                 ops = base[:k] + [STOP] + base[k:]
                 yield ("copier", [c, 1, 3, 0, -1, NOFAIL, ops, [14, 5]], "seq-stop")
